@@ -196,6 +196,68 @@ struct LegacyScope {
         ~LegacyScope() { e.legacy_api = saved; }
 };
 
+#include "golden_rolling_table.h"
+static inline uint64_t rol64z(uint64_t v, int s)
+{
+        s &= 63;
+        return s ? (v << s) | (v >> (64 - s)) : v;
+}
+// A w-byte window whose 64-bit rolling hash is exactly 0 (the hash is linear over GF(2) in the choice between two candidate bytes per
+// position: random candidate pairs until 0 lies in the span, about 2^16 attempts for w = 48). Deterministic, computed once per process.
+static const std::vector<uint8_t> &zero_hash_window()
+{
+        static std::vector<uint8_t> win;
+        if (!win.empty())
+                return win;
+        const uint32_t w = 48;
+        Rng g(0x7a65726f77696eULL, "zerowin");
+        for (int attempt = 0; attempt < (1 << 22); attempt++) {
+                uint8_t a[48], b[48];
+                uint64_t base = 0, bv[64] = { 0 }, bc[64] = { 0 };
+                for (uint32_t j = 0; j < w; j++) {
+                        a[j] = (uint8_t) g.below(256);
+                        do
+                                b[j] = (uint8_t) g.below(256);
+                        while (b[j] == a[j]);
+                        base ^= rol64z(golden_rolling_table[a[j]], (int) (w - 1 - j));
+                        uint64_t v = rol64z(golden_rolling_table[a[j]] ^ golden_rolling_table[b[j]], (int) (w - 1 - j)), cm = 1ull << j;
+                        while (v) {
+                                int hb = 63 - __builtin_clzll(v);
+                                if (!bv[hb]) {
+                                        bv[hb] = v;
+                                        bc[hb] = cm;
+                                        break;
+                                }
+                                v ^= bv[hb];
+                                cm ^= bc[hb];
+                        }
+                }
+                uint64_t cm = 0;
+                while (base) {
+                        int hb = 63 - __builtin_clzll(base);
+                        if (!bv[hb])
+                                break;
+                        base ^= bv[hb];
+                        cm ^= bc[hb];
+                }
+                if (base)
+                        continue;
+                win.resize(w);
+                for (uint32_t j = 0; j < w; j++)
+                        win[j] = ((cm >> j) & 1) ? b[j] : a[j];
+                RefRolling m;
+                m.init(w);
+                m.reset(win.data());
+                if (m.hash() != 0) {
+                        fprintf(stderr, "HARNESS: zero-hash window solver is wrong\n");
+                        exit(2);
+                }
+                return win;
+        }
+        fprintf(stderr, "HARNESS: no zero-hash window found\n");
+        exit(2);
+}
+
 struct SClient {
         int kind = 0, fam = 0, api = 0; // api 0 family symbols, 1 isal_
         std::vector<uint8_t> stream;
@@ -216,6 +278,8 @@ struct SClient {
         std::vector<uint64_t> boundaries, model_boundaries;
         bool huge = false;
         bool noreset = false; // rolling: run straight after init (no model, C20 and the monitors only)
+        int zerowin = 0;      // rolling: 1 = the reset window hashes to 0; 2 = a window that hashes to 0 ends at zero_at, where a call is cut
+        size_t zero_at = 0;
         // gcm
         int ks = 0;
         bool dec = false, inplace = false, nt = false;
@@ -356,6 +420,11 @@ struct StreamSim : Sim {
                                 // no model for that (which window init leaves behind is the library's choice), but the result must not depend on
                                 // what the state object's memory held before (C20)
                                 p.cfg[k + "noreset"] = (!p.cfg[k + "twin"] && g.chance(1, 8)) ? 1 : 0;
+                                // 1 rolling client in 8 meets a window whose full 64-bit hash is 0: as the reset window, or ending exactly where a call ends
+                                if (!p.cfg[k + "twin"] && !p.cfg[k + "noreset"] && g.chance(1, 8)) {
+                                        p.cfg[k + "zerowin"] = (int64_t) (1 + g.below(2));
+                                        p.cfg[k + "w"] = 48;
+                                }
                         } else {
                                 p.cfg[k + "fam"] = (int64_t) g.below(4);
                                 p.cfg[k + "ks"] = (int64_t) g.below(2);
@@ -463,6 +532,12 @@ struct StreamSim : Sim {
                         g.fill(c.stream.data(), len);
                 c.pos = 0;
                 c.finalized = false;
+                c.zero_at = 0;
+                if (c.kind == K_ROLL && c.zerowin == 2 && len >= 48 + 1) {
+                        const std::vector<uint8_t> &zw = zero_hash_window();
+                        c.zero_at = 48 + (size_t) (mix64(s.p->seed, 0x2e70 + (uint64_t) ci + 8 * (uint64_t) c.epoch) % (len - 48));
+                        memcpy(c.stream.data() + c.zero_at - 48, zw.data(), 48);
+                }
         }
 
         // ---- mh / murmur
@@ -649,6 +724,10 @@ struct StreamSim : Sim {
                         c.init_seed = mix64(s.p->seed, 0x1717 + (uint64_t) ci * 16 + (uint64_t) c.epoch) | 1;
                 Rng g(c.init_seed, "rollinit");
                 g.fill(init, c.w);
+                if (c.zerowin == 1 && c.w == 48) {
+                        memcpy(init, zero_hash_window().data(), 48);
+                        s.r->cov.hit("probe_rolling_reset_window_with_hash_0");
+                }
                 e.mem.snapshot(init);
                 if (c.api)
                         e.call("isal_rolling_hash2_reset", S.roll_isal_reset, { U(c.ctx), U(init) });
@@ -705,6 +784,8 @@ struct StreamSim : Sim {
                         if (c.fragmode && (o.b % 9) != 0 && (o.b % 9) != 5)
                                 n = (c.fragmode == 2 && (c.nfrag++ & 1)) ? c.fragB : c.fragA;
                         n = std::min<uint64_t>(n, rem);
+                        if (c.zero_at > c.pos && c.pos + n > c.zero_at)
+                                n = c.zero_at - c.pos; // the call ends with the last byte of the window that hashes to 0
                         buf = e.mem.alloc(n, 1, place_of(o.d), nullptr, "rolling run buffer", R_INPUT, (size_t) ((o.d >> 2) % 64));
                         if (n)
                                 memcpy(buf, c.stream.data() + c.pos, n);
@@ -764,6 +845,8 @@ struct StreamSim : Sim {
                         e.violation("C09", "state-hash", "C09/state-hash/" + site,
                                     strfmt("%s w=%u: state hash %llx after the call, hash of the last w stream bytes is %llx", site.c_str(), c.w,
                                            (unsigned long long) st->hash, (unsigned long long) c.model_hash));
+                if (!c.huge && !c.noreset && c.model_hash == 0 && n && !mm)
+                        s.r->cov.hit("probe_rolling_call_ends_on_a_window_with_hash_0");
                 if (buf)
                         e.check_buf(buf, "rolling run");
                 e.check_buf(c.ctx, "rolling run");
@@ -1086,6 +1169,8 @@ struct StreamSim : Sim {
                         c.mask = s.cl[ci - 1].mask;
                         c.trigger = s.cl[ci - 1].trigger;
                         c.init_seed = s.cl[ci - 1].init_seed;
+                        c.zerowin = s.cl[ci - 1].zerowin; // same reset window as the twin
+                        c.zero_at = s.cl[ci - 1].zero_at;
                         c.pos = 0;
                         c.finalized = false;
                         s.r->cov.hit("probe_rolling_twin_client_same_stream");
@@ -1182,6 +1267,7 @@ struct StreamSim : Sim {
                                 c.mask = (uint32_t) p.get((k + "mask").c_str());
                                 c.trigger = (uint32_t) p.get((k + "trigger").c_str()) & c.mask;
                                 c.huge = p.get((k + "huge").c_str()) != 0;
+                                c.zerowin = c.huge ? 0 : (int) p.get((k + "zerowin").c_str());
                                 c.ctx = e.mem.alloc(sizeof(struct isal_rh_state2), 8, pl, &e.hidden, "rolling state", R_OBJECT, 8 * (size_t) (i + 1));
                                 if (p.get((k + "maskgen_mean").c_str())) {
                                         uint32_t mean = (uint32_t) p.get((k + "maskgen_mean").c_str()), shift = (uint32_t) p.get((k + "maskgen_shift").c_str());
@@ -1630,7 +1716,6 @@ struct StreamSim : Sim {
         static std::vector<uint8_t> ref_mh_periodic(bool sha256, size_t phase, uint64_t n);
 };
 
-#include "golden_rolling_table.h"
 uint64_t StreamSim::golden(uint8_t b) { return golden_rolling_table[b]; }
 
 // streaming multi-hash reference over the periodic window (same definition as ref_mh, blockwise)
